@@ -21,10 +21,10 @@ js::Value tool_variant_json(const Plan &p) {
 
 void tool_build(const Plan &p, Case &c) {
   double box = 1.7 + 0.1 * (double)(p.case_seed % 6);
-  c.files["topol.xml"] = gen_topology_xml(p, false, box);
+  std::string topfile = add_topology(p, c, false, box);
   std::string trj = trj_file(p);
   c.files[trj] = gen_trajectory(p, box, p.nmol * p.chain);
-  c.args = {"--top", "{IN}/topol.xml", "--trj", "{IN}/" + trj, "--c", p.variant ? "0.8" : "0.5"};
+  c.args = {"--top", "{IN}/" + topfile, "--trj", "{IN}/" + trj, "--c", p.variant ? "0.8" : "0.5"};
 }
 
 bool tool_numbers_comparable(const Plan &) { return true; }
